@@ -884,13 +884,17 @@ class tensor:
             cnt = sum(factorial(len(x)) for x in grps)
             all_diffs = np.zeros((cnt, 1))
             all_perms = np.zeros((cnt, n))
+            p_idx = -1
             for a_group in grps:
                 # Compute the permutations for this group of symmetries
-                for p_idx, perm in enumerate(permutations(a_group)):
+                for group_perm in permutations(a_group):
+                    p_idx += 1
+                    perm = np.arange(n)
+                    perm[np.array(a_group)] = group_perm
                     all_perms[p_idx, :] = perm
 
                     # Do the permutation and record the difference.
-                    Y = self.permute(np.array(perm))
+                    Y = self.permute(perm)
                     if np.array_equal(self.data, Y.data):
                         all_diffs[p_idx] = 0
                     else:
